@@ -22,7 +22,27 @@ STREAMS["versions"] = {
     "selftest": {"good": "CVlt (mkV 1 0 0 [] []) (mkV 1 0 1 [] []) true", "bad": "CVlt (mkV 1 0 0 [] []) (mkV 1 0 1 [] []) false"},
 }
 
+_BUILDER_ASSUME = [
+    "modelled, not verified: caller callbacks (fetcher, registry client, dependency finders) as total functions of a scripted world; the prepared content of a package is an abstract identity standing for the dirhash-derived directory name (SHA-256 collision freedom is not claimed; only equality patterns are compared); sync.Mutex as atomicity of each Add call; encoding/json and the manifest file are outside the model",
+    "version selection uses go-versions as restated in Bundle/Versions.v (validated by the versions stream)",
+]
+
 PROPS = {
+    "C08": {
+        "streams": ["bundle"],
+        "theorems": "C08_build_is_closure (work-list soundness + completeness + cache consistency for all worlds, Add sequences and fuel, by invariants over step/drain/run_ops), C08_registry_resolution_is_cache_independent, C08_relative_inside_package",
+        "assumptions": _BUILDER_ASSUME + ["path lookups of the finished bundle (LocalPathFor*) are checked on the implementation by the oracle against a reference closure computed independently in Go; their model is the subject of C18"],
+    },
+    "C13": {
+        "streams": ["bundle"],
+        "theorems": "C13_order_independent (same analysed set and directory identities for any two Add sequences with the same item set), C13_coalesce_iff_equal_content; partial on schedules: operations are atomic in the model (mutex granularity)",
+        "assumptions": _BUILDER_ASSUME + ["partial: Go-memory-model data races below mutex granularity (e.g. the unlocked targetDir test at the top of each Add) cannot be exhibited by the sequential model; manifest bytes / checksum equality across all permutations is checked on the implementation"],
+    },
+    "C14": {
+        "streams": ["bundle"],
+        "theorems": "C14_analyse_once (unconditional: analysis log = analysed list, NoDup), C14_fetch_once (fetch log = package-table keys, NoDup, where fetching never fails), C14_exactly_the_reachable_set; termination: not proved in general (watchdog on the implementation, fuel 4000 never exhausted in the model on any case; concrete cyclic Example)",
+        "assumptions": _BUILDER_ASSUME + ["termination of the drain loop is observed (20 s watchdog on every real build; model fuel never exhausted), not proved"],
+    },
     "C17": {
         "streams": ["versions", "bundle"],
         "theorems": "C17_selected_is_newest_allowed, C17_listing_order_irrelevant(_some), C17_exact, C17_complete_above_zero, C17_precedence_order (strict weak order), C17_complete_refuted (0.0.0 witness = known finding KF-C17-1): for all version lists and allowed sets",
